@@ -499,6 +499,19 @@ Theorem C03_getitem_constmul : forall c T g D bs m n, ok_tensor c = true -> ok_t
   getitem_contract D (constmul_getitem c g).
 Proof. exact constmul_getitem_contract. Qed.
 
+(* Root / Chol / LowRankRoot: root._getitem(row, :) @ root._getitem(col, :)^T in both branches of the code *)
+Theorem C03_getitem_root : forall Rt g D bs m k, ok_tensor Rt = true -> tshape Rt = (bs ++ [m; k])%list ->
+  getitem_contract Rt g -> tmatmul_nt Rt Rt = Some D -> getitem_contract D (root_getitem g).
+Proof. exact root_getitem_contract. Qed.
+
+(* THE DEFAULT LinearOperator._getitem (inherited by Toeplitz, Kronecker*, Diag / ConstantDiag / Identity, Triangular, Permutation,
+   Interpolated bases, ...): batch-only indexing of the operator followed by the unit-weight interpolation that selects rows
+   and columns meets the contract for EVERY basic index as soon as the class's batch-only indexing (every component tensor
+   indexed with the batch indices) meets it *)
+Theorem C03_getitem_default : forall t gb bs m n, ok_tensor t = true -> tshape t = (bs ++ [m; n])%list ->
+  batch_only_contract t bs gb -> getitem_contract t (default_getitem gb).
+Proof. exact default_getitem_contract. Qed.
+
 (* composed: a Matmul of two operators meeting the contracts, basic indices and the absorbed path *)
 Theorem C03_e2e_matmul : forall debug L R gl gr fl fr D bs m k n idx index r,
   ok_tensor L = true -> ok_tensor R = true -> tshape L = (bs ++ [m; k])%list -> tshape R = (bs ++ [k; n])%list ->
